@@ -1172,3 +1172,8 @@ func (ds *Dataset) GetContext() *Context {
 func (ds *Dataset) FullSyncStarted() bool {
 	return ds.fullSyncStarted
 }
+
+// FullSyncID is the id of the full sync in progress: empty for a sync started by a job
+func (ds *Dataset) FullSyncID() string {
+	return ds.fullSyncID
+}
